@@ -415,9 +415,12 @@ class Kernel:
             self.exit_child(self.sched.pick_exit(self, run))
             if self.adversarial:
                 # one SIGCHLD may stand for several exits
-                more = self.running()
-                if more:
-                    for p in self.sched.exits_now(self, "read_batch", more):
+                while True:
+                    more = self.running()
+                    extra = self.sched.exits_now(self, "read_batch", more) if more else []
+                    if not extra:
+                        break
+                    for p in extra:
                         self.exit_child(p)
 
     def getpgid(self, pid):
